@@ -89,7 +89,7 @@ def check_program(spec, grid, want_coverage=True, max_issues=5, results=None, sk
                 continue
             if ref[0] in skip_kinds:
                 continue
-            stats["outcomes"].add((ref[0], ref[1][:8] if isinstance(ref[1], bytes) else None))
+            stats["outcomes"].add((ref[0], hash(ref[1]) if isinstance(ref[1], bytes) else None, len(ref[2])))
             if tuple(outcome[:2]) != tuple(ref[:2]) or list(outcome[2]) != list(ref[2]):
                 if len(issues) < max_issues:
                     issues.append(Issue("unsound", f"path {idx} claims {fmt_outcome(outcome)}; EVM gives {fmt_outcome(ref)}", inputs, idx))
